@@ -6,7 +6,27 @@ import (
 
 // operand pairs whose sum / difference / product lands next to a multiple of n before reduction
 func (m *M) scalarPair() (string, string, *big.Int, *big.Int) {
-	switch m.rng.Intn(14) {
+	switch m.rng.Intn(17) {
+	case 14, 15, 16: // chosen for their RESULT: the stored form of a*b, a^2, a+b or a-b is a boundary / structured value
+		t, _ := m.resultTarget(bigN)
+		t = mulmod(t, rInvN, bigN)
+		a := m.randBig(bigN)
+		if a.Sign() == 0 {
+			a.SetInt64(3)
+		}
+		switch m.rng.Intn(4) {
+		case 0:
+			return "product_structured", "", a, mulmod(t, new(big.Int).ModInverse(a, bigN), bigN)
+		case 1:
+			if r := new(big.Int).ModSqrt(t, bigN); r != nil {
+				return "square_structured", "", r, r
+			}
+			return "sum_structured", "", a, new(big.Int).Mod(new(big.Int).Sub(t, a), bigN)
+		case 2:
+			return "sum_structured", "", a, new(big.Int).Mod(new(big.Int).Sub(t, a), bigN)
+		default:
+			return "difference_structured", "", a, new(big.Int).Mod(new(big.Int).Sub(a, t), bigN)
+		}
 	case 12, 13: // the STORED limbs differ by a STRUCTURED xor pattern: equal / related limb differences, some limbs untouched
 		for try := 0; try < 8; try++ {
 			wa := new(big.Int).Mod(new(big.Int).Mul(m.randBig(bigN), bigR), bigN)
